@@ -252,7 +252,7 @@ Section System.
   Definition req_hdr (x : exch) (m : msg) : Prop :=
     mtok m = xtok x /\ mcode m = xcode x /\ mother m = [(11, xpath x)] /\ mobs m = None.
   Definition resp_hdr (x : exch) (r : res) (m : msg) : Prop :=
-    mtok m = xtok x /\ mcode m = resp_code (xcode x) /\ mother m = [(12, rcf r)] /\ mobs m = None.
+    mtok m = xtok x /\ mcode m = resp_code (xcode x) /\ mother m = [(12, rcf r)] /\ mobs m = None /\ mb1 m = None.
 
   (* versions of a resource that may have been served so far: V = current version per path *)
   Definition okv (V : Z -> Z) (x : exch) (r : res) (v : Z) : Prop :=
@@ -340,7 +340,8 @@ Section System.
   Lemma req_hdr_block x up m : req_hdr x m -> req_hdr x (set_block up m None None). Proof. auto. Qed.
   Lemma resp_hdr_body x r m b : resp_hdr x r m -> resp_hdr x r (set_body m b). Proof. auto. Qed.
   Lemma resp_hdr_etag x r m t : resp_hdr x r m -> resp_hdr x r (set_etag m t). Proof. auto. Qed.
-  Lemma resp_hdr_block x r up m : resp_hdr x r m -> resp_hdr x r (set_block up m None None). Proof. auto. Qed.
+  Lemma resp_hdr_block x r up m : resp_hdr x r m -> resp_hdr x r (set_block up m None None).
+  Proof. intros (H1 & H2 & H3 & H4 & H5). repeat (split; [assumption|]). cbn [set_block mb1]. destruct up; [reflexivity|exact H5]. Qed.
 
   Lemma same_tok x y : In x (cexch c) -> In y (cexch c) -> xtok x = xtok y -> x = y.
   Proof. apply (wf_tok c Hwf). Qed.
@@ -422,21 +423,21 @@ Section System.
   Lemma resp_not_upload z : is_upload (resp_code z) = false.
   Proof. rc_cases z; reflexivity. Qed.
   Lemma resp_not_observe V m : resp_of V m -> is_observe_response m = false.
-  Proof. intros [x [r [v [_ [_ [_ [[_ [_ [_ Ho]]] _]]]]]]]. unfold is_observe_response. rewrite Ho. reflexivity. Qed.
+  Proof. intros [x [r [v [_ [_ [_ [[_ [_ [_ [Ho _]]]] _]]]]]]]. unfold is_observe_response. rewrite Ho. reflexivity. Qed.
 
   (* a block of a response produced by createSendingMessage is a response block *)
   Lemma create_sending_resp V wm mx mm b sm more :
     resp_of V wm -> mb2 wm = None -> 16 <= blen (mbody wm) -> 0 <= mx <= 7 -> 0 <= bszx b -> 0 <= bnum b -> 0 <= mm ->
     create_sending wm mx mm b = Some (sm, more) -> resp_of V sm /\ mtok sm = mtok wm.
   Proof.
-    intros [x [r [v [Hx [Hr [Hv [[Ht [Hc [Ho Hb]]] [He Hbody]]]]]]]] Hb2 Hbig Hmx Hs Hn Hmm Hcs.
+    intros [x [r [v [Hx [Hr [Hv [[Ht [Hc [Ho [Hb Hwb1]]]] [He Hbody]]]]]]]] Hb2 Hbig Hmx Hs Hn Hmm Hcs.
     rewrite Hb2 in Hbody.
     pose proof (serve_coherent wm mx mm b sm more Hmx Hs Hn Hmm Hcs) as Hsc. cbv zeta in Hsc.
     rewrite Hc, resp_not_upload in Hsc.
-    destruct Hsc as (nb & Hnb & _ & _ & Hnbs & Hnbn & _ & Hsl & _ & _ & Hm1 & Hm2 & _ & Hc' & Ht' & He' & Ho' & Hot' & _).
+    destruct Hsc as (nb & Hnb & _ & _ & Hnbs & Hnbn & _ & Hsl & _ & _ & Hm1 & Hm2 & _ & Hc' & Ht' & He' & Ho' & Hot' & Hsb1 & _).
     split; [|exact Ht'].
     exists x, r, v. split; [exact Hx|]. split; [exact Hr|]. split; [exact Hv|].
-    split; [unfold resp_hdr; rewrite Ht', Hc', Ho', Hot'; repeat split; assumption|].
+    split; [unfold resp_hdr; rewrite Ht', Hc', Ho', Hot', Hsb1; repeat split; assumption|].
     split; [rewrite He'; exact He|].
     rewrite Hnb. rewrite <- Hbody. split; [exact Hnbs|]. split; [exact Hnbn|]. split; [exact Hsl|]. split; [|exact Hbig].
     intros Hmf. rewrite Hm1 in Hmf.
@@ -753,7 +754,7 @@ Section System.
          split; [exact Hinv|]. split; [discriminate|]. intros y [<-|[]]. right. split; [exact Hnil|].
          destruct Hcode as [[Hc _]|[Hc _]]; auto. }
     pose proof Hres as [x [r [v [Hx [Hrs [Hv [Hh [Het Hbody]]]]]]]].
-    pose proof Hh as [Ht [Hc [Ho Hob]]].
+    pose proof Hh as [Ht [Hc [Ho [Hob Hmb1]]]].
     rewrite Hc. destruct (resp_codes (xcode x)) as [-> Hgd]. rewrite Hgd, resp_not_upload. cbv iota.
     assert (Hgd' : (mcode m =? GET) || (mcode m =? DELETE) = false) by (rewrite Hc; exact Hgd).
     destruct (mb2 m) as [b|] eqn:Eb2.
@@ -1160,7 +1161,7 @@ Section System.
 
   Lemma delivA_class es d : delivA_ok (bumps es) d -> delivery_class c es 0 (proj d) = 0%N.
   Proof.
-    intros [[x [r [v [Hx [Hr [[Hv _] [[Ht [Hc [Ho Hob]]] [He Hb]]]]]]]]|[Hnil Hc]].
+    intros [[x [r [v [Hx [Hr [[Hv _] [[Ht [Hc [Ho [Hob _]]]] [He Hb]]]]]]]]|[Hnil Hc]].
     2: { unfold delivery_class, proj. cbn [pcode plen Z.eqb]. rewrite Hnil. destruct Hc as [-> | ->]; reflexivity. }
     destruct (wf_exch c Hwf x Hx) as [Hk _].
     unfold delivery_class, proj. cbn [pcode plen ptok psum pother petag pobs Z.eqb].
@@ -1942,5 +1943,824 @@ Section System.
     destruct (tget (sending e) (mtok r)) as [orig|]; [|exact Hrecv].
     destruct (wants_to_be_received r); [exact Hrecv|].
     destruct (continue_sending e r orig) as [[e2 w] err]. intros _. left. reflexivity.
+  Qed.
+
+  (* ---------------------------------------------------------------------- *)
+  (* 12. isolation: Handle depends on, and changes, only the state of the     *)
+  (*     token of the message it handles                                     *)
+  Definition agree_at (t : Z) (e1 e2 : ep) : Prop :=
+    eszx e1 = eszx e2 /\ emax e1 = emax e2 /\ eoutside e1 = eoutside e2 /\
+    tget (sending e1) t = tget (sending e2) t /\ tget (receiving e1) t = tget (receiving e2) t.
+
+  Lemma agree_refl t e : agree_at t e e. Proof. repeat split. Qed.
+
+  Lemma tget_tput_congr t1 t2 k v k' : tget t1 k' = tget t2 k' -> tget (tput t1 k v) k' = tget (tput t2 k v) k'.
+  Proof.
+    intros H. destruct (Z.eq_dec k k') as [->|Hne]; [rewrite !tget_tput_same; reflexivity|].
+    rewrite !tget_tput_other by exact Hne. exact H.
+  Qed.
+  Lemma tget_tdel_congr t1 t2 k k' : tget t1 k' = tget t2 k' -> tget (tdel t1 k) k' = tget (tdel t2 k) k'.
+  Proof.
+    intros H. destruct (Z.eq_dec k k') as [->|Hne]; [rewrite !tget_tdel_same; reflexivity|].
+    rewrite !tget_tdel_other by exact Hne. exact H.
+  Qed.
+
+  Section Congr.
+    Variable app : Z -> msg -> option msg.
+    Hypothesis Happ : forall t d w, app t d = Some w -> mtok w = t.
+
+    Lemma start_sending_congr t e1 e2 w mx mm b :
+      agree_at t e1 e2 -> (forall wm, w = Some wm -> mtok wm = t) ->
+      let '(e1', o1) := start_sending e1 w mx mm b in
+      let '(e2', o2) := start_sending e2 w mx mm b in
+      o1 = o2 /\ agree_at t e1' e2' /\ (forall sm, o1 = Out (Some sm) -> mtok sm = t).
+    Proof.
+      intros Hag Hw. pose proof Hag as (H1 & H2 & H3 & H4 & H5). unfold start_sending.
+      destruct w as [wm|]; [|split; [reflexivity|split; [exact Hag|discriminate]]].
+      destruct (blen (mbody wm) <? size mx).
+      { split; [reflexivity|split; [exact Hag|]]. intros sm E. injection E as <-. apply Hw. reflexivity. }
+      destruct (create_sending wm mx mm b) as [[sm more]|] eqn:Hcs; [|split; [reflexivity|split; [exact Hag|discriminate]]].
+      assert (Htk : mtok sm = t) by (rewrite (create_sending_tok _ _ _ _ _ _ Hcs); apply Hw; reflexivity).
+      destruct (is_observe_response sm).
+      { split; [reflexivity|split; [exact Hag|]]. intros sm' E. injection E as <-. exact Htk. }
+      rewrite Htk. rewrite <- H4.
+      destruct (tget (sending e1) t) eqn:Es; [split; [reflexivity|split; [exact Hag|discriminate]]|].
+      split; [reflexivity|]. split; [|intros sm' E; injection E as <-; exact Htk].
+      unfold agree_at. cbn [eszx emax eoutside sending receiving with_sending].
+      repeat (split; [assumption|]). split; [|exact H5]. apply tget_tput_congr. rewrite Es. exact H4.
+    Qed.
+
+    Lemma continue_sending_congr e1 e2 r orig :
+      agree_at (mtok r) e1 e2 ->
+      let '(e1', w1, err1) := continue_sending e1 r orig in
+      let '(e2', w2, err2) := continue_sending e2 r orig in
+      w1 = w2 /\ err1 = err2 /\ agree_at (mtok r) e1' e2' /\ (forall sm, w1 = Some sm -> mtok sm = mtok orig).
+    Proof.
+      intros Hag. pose proof Hag as (H1 & H2 & H3 & H4 & H5). unfold continue_sending. rewrite <- H1, <- H2.
+      assert (Hdel : agree_at (mtok r) (with_sending e1 (tdel (sending e1) (mtok r))) (with_sending e2 (tdel (sending e2) (mtok r)))).
+      { unfold agree_at. cbn [eszx emax eoutside sending receiving with_sending].
+        repeat (split; [assumption|]). split; [|exact H5]. apply tget_tdel_congr. exact H4. }
+      destruct (if is_upload (mcode orig) then mb1 r else mb2 r) as [b|]; [|repeat split; try apply Hdel; discriminate].
+      destruct (create_sending orig (eszx e1) (emax e1) b) as [[sm more]|] eqn:Hcs; [|repeat split; try apply Hdel; discriminate].
+      assert (Htk : forall sm', Some sm = Some sm' -> mtok sm' = mtok orig)
+        by (intros sm' E; injection E as <-; eapply create_sending_tok; exact Hcs).
+      destruct (negb more && (DELETE <? mcode orig)); (split; [reflexivity|split; [reflexivity|split; [assumption|exact Htk]]]).
+    Qed.
+
+    Lemma process_received_congr e1 e2 r mx isb1 :
+      is_observe_response r = false -> agree_at (mtok r) e1 e2 ->
+      let '(e1', o1, d1) := process_received app e1 r mx isb1 in
+      let '(e2', o2, d2) := process_received app e2 r mx isb1 in
+      o1 = o2 /\ d1 = d2 /\ agree_at (mtok r) e1' e2' /\ (forall wm, o1 = Out (Some wm) -> mtok wm = mtok r).
+    Proof.
+      intros Hobs Hag. pose proof Hag as (H1 & H2 & H3 & H4 & H5). unfold process_received.
+      destruct ((mcode r =? GET) || (mcode r =? DELETE)).
+      { split; [reflexivity|]. split; [reflexivity|]. split; [exact Hag|]. intros wm E. injection E as E. eapply Happ; exact E. }
+      destruct (if isb1 then mb1 r else mb2 r) as [b|].
+      2: { destruct (isb1 && _); (split; [reflexivity|]; split; [reflexivity|]; split; [exact Hag|]); [discriminate|].
+           intros wm E. injection E as E. eapply Happ; exact E. }
+      assert (Hsent : get_sent_request e1 (mtok r) = get_sent_request e2 (mtok r)).
+      { unfold get_sent_request. rewrite H4, H3. reflexivity. }
+      rewrite <- Hsent.
+      destruct (if isb1 then false else match get_sent_request e1 (mtok r) with None => true | Some _ => false end).
+      { split; [reflexivity|]. split; [reflexivity|]. split; [exact Hag|discriminate]. }
+      unfold observe_key. rewrite Hobs. cbn [negb]. rewrite <- H5.
+      assert (Hput : forall v, agree_at (mtok r) (with_receiving e1 (tput (receiving e1) (mtok r) v))
+                                          (with_receiving e2 (tput (receiving e2) (mtok r) v))).
+      { intros v. unfold agree_at. cbn [eszx emax eoutside sending receiving with_receiving].
+        repeat (split; [assumption|]). apply tget_tput_congr. exact H5. }
+      assert (Hdel : forall v, agree_at (mtok r) (with_receiving e1 (tdel (tput (receiving e1) (mtok r) v) (mtok r)))
+                                          (with_receiving e2 (tdel (tput (receiving e2) (mtok r) v) (mtok r)))).
+      { intros v. unfold agree_at. cbn [eszx emax eoutside sending receiving with_receiving].
+        repeat (split; [assumption|]). apply tget_tdel_congr, tget_tput_congr. exact H5. }
+      assert (Hdel2 : forall v, agree_at (mtok r)
+                (with_sending (with_receiving e1 (tdel (tput (receiving e1) (mtok r) v) (mtok r))) (tdel (sending e1) (mtok r)))
+                (with_sending (with_receiving e2 (tdel (tput (receiving e2) (mtok r) v) (mtok r))) (tdel (sending e2) (mtok r)))).
+      { intros v. unfold agree_at. cbn [eszx emax eoutside sending receiving with_receiving with_sending].
+        repeat (split; [assumption|]). split; [apply tget_tdel_congr; exact H4|apply tget_tdel_congr, tget_tput_congr; exact H5]. }
+      destruct (tget (receiving e1) (mtok r)) as [c0|]; destruct (bmore b);
+        try (destruct (negb (bnum b =? 0));
+             [split; [reflexivity|]; split; [reflexivity|]; split; [exact Hag|discriminate]
+             |split; [reflexivity|]; split; [reflexivity|]; split; [exact Hag|intros wm E; injection E as E; eapply Happ; exact E]]).
+      all: match goal with |- context [reasm ?a ?b0 ?c1] => destruct (reasm a b0 c1) as [cm' appended] end.
+      all: match goal with |- context [if ?cnd then _ else _] => destruct cnd end.
+      all: try (destruct (mtok cm' =? mtok r)).
+      all: cbn [sending receiving with_sending with_receiving].
+      all: split; [reflexivity|]; split; [reflexivity|]; split; [first [apply Hput|apply Hdel|apply Hdel2]|].
+      all: intros wm E; injection E as E.
+      all: try (eapply Happ; exact E).
+      all: subst wm; destruct isb1; try reflexivity; destruct (get_sent_request e1 (mtok r)); reflexivity.
+    Qed.
+
+    Lemma handle_congr e1 e2 r :
+      is_observe_response r = false -> agree_at (mtok r) e1 e2 ->
+      (forall m0, tget (sending e1) (mtok r) = Some m0 -> mtok m0 = mtok r) ->
+      let '(e1', o1, d1, n1) := handle app e1 r in
+      let '(e2', o2, d2, n2) := handle app e2 r in
+      o1 = o2 /\ d1 = d2 /\ n1 = n2 /\ agree_at (mtok r) e1' e2' /\ (forall wm, o1 = Some wm -> mtok wm = mtok r).
+    Proof.
+      intros Hobs Hag Hkey. pose proof Hag as (H1 & H2 & H3 & H4 & H5). unfold handle. rewrite <- H4.
+      assert (Hhr : let '(e1', o1, d1) := handle_received app e1 r in let '(e2', o2, d2) := handle_received app e2 r in
+                    o1 = o2 /\ d1 = d2 /\ agree_at (mtok r) e1' e2' /\ (forall sm, o1 = Out (Some sm) -> mtok sm = mtok r)).
+      { unfold handle_received. rewrite <- H1, <- H2.
+        destruct ((mcode r =? 0) || ((225 <=? mcode r) && (mcode r <=? 229))).
+        { split; [reflexivity|]. split; [reflexivity|]. split; [exact Hag|]. intros sm E. injection E as E. eapply Happ; exact E. }
+        destruct ((mcode r =? GET) || (mcode r =? DELETE)).
+        - match goal with |- context [start_sending e1 ?w ?mx ?mm ?b] =>
+            pose proof (start_sending_congr (mtok r) e1 e2 w mx mm b Hag) as Hs;
+            destruct (start_sending e1 w mx mm b) as [e1' o1]; destruct (start_sending e2 w mx mm b) as [e2' o2] end.
+          destruct Hs as [Ho [He Ht]]; [intros wm E; eapply Happ; exact E|]. auto.
+        - set (isb1 := is_upload (mcode r)). set (mx := fit (if isb1 then mb1 r else mb2 r) (eszx e1)).
+          pose proof (process_received_congr e1 e2 r mx isb1 Hobs Hag) as Hp.
+          destruct (process_received app e1 r mx isb1) as [[e1a o1] d1]. destruct (process_received app e2 r mx isb1) as [[e2a o2] d2].
+          destruct Hp as [<- [<- [Hag1 Htok]]]. destruct o1 as [w|]; [|split; [reflexivity|split; [reflexivity|split; [exact Hag1|discriminate]]]].
+          match goal with |- context [start_sending e1a ?w0 ?mx0 ?mm ?b] =>
+            pose proof (start_sending_congr (mtok r) e1a e2a w0 mx0 mm b Hag1) as Hs;
+            destruct (start_sending e1a w0 mx0 mm b) as [e1' o1']; destruct (start_sending e2a w0 mx0 mm b) as [e2' o2'] end.
+          destruct Hs as [Ho [He Ht]]; [intros wm E; apply Htok; rewrite E; reflexivity|]. auto. }
+      assert (Hrecv :
+        let '(e1', o1, d1, n1) := (let '(e', o, d) := handle_received app e1 r in
+           match o with Out w => (e', w, d, 0) | Fail => (e', Some (entity_incomplete (mtok r)), d, 1) end) in
+        let '(e2', o2, d2, n2) := (let '(e', o, d) := handle_received app e2 r in
+           match o with Out w => (e', w, d, 0) | Fail => (e', Some (entity_incomplete (mtok r)), d, 1) end) in
+        o1 = o2 /\ d1 = d2 /\ n1 = n2 /\ agree_at (mtok r) e1' e2' /\ (forall wm, o1 = Some wm -> mtok wm = mtok r)).
+      { destruct (handle_received app e1 r) as [[e1a o1] d1]. destruct (handle_received app e2 r) as [[e2a o2] d2].
+        destruct Hhr as [<- [<- [Hag1 Htok]]]. destruct o1 as [w|].
+        - split; [reflexivity|]. split; [reflexivity|]. split; [reflexivity|]. split; [exact Hag1|]. intros wm E. apply Htok. rewrite E. reflexivity.
+        - split; [reflexivity|]. split; [reflexivity|]. split; [reflexivity|]. split; [exact Hag1|]. intros wm E. injection E as <-. reflexivity. }
+      destruct (tget (sending e1) (mtok r)) as [orig|] eqn:Es; [|exact Hrecv].
+      destruct (wants_to_be_received r); [exact Hrecv|].
+      pose proof (continue_sending_congr e1 e2 r orig Hag) as Hc.
+      destruct (continue_sending e1 r orig) as [[e1' w1] err1]. destruct (continue_sending e2 r orig) as [[e2' w2] err2].
+      destruct Hc as [<- [<- [Hag1 Htok]]].
+      split; [reflexivity|]. split; [reflexivity|]. split; [reflexivity|]. split; [exact Hag1|].
+      intros wm E. rewrite (Htok wm E). apply Hkey. reflexivity.
+    Qed.
+  End Congr.
+
+  (* the token counters of handleObserveResponse never decrease *)
+  Definition cnt_ok (X : list (Z * Z)) (e : ep) : Prop := 0 <= efresh e /\ 0 <= ehid e /\ eoutside e = X.
+
+  Lemma process_received_cnt X app e r mx isb1 : cnt_ok X e -> cnt_ok X (fst (fst (process_received app e r mx isb1))).
+  Proof.
+    intros [Hf [Hh Hx]]. unfold process_received, cnt_ok.
+    destruct ((mcode r =? GET) || (mcode r =? DELETE)); [auto|].
+    destruct (if isb1 then mb1 r else mb2 r) as [b|]; [|destruct (isb1 && _); auto].
+    destruct (if isb1 then false else match get_sent_request e (mtok r) with None => true | Some _ => false end); [auto|].
+    assert (Hk : cnt_ok X (fst (fst (observe_key e r b (get_sent_request e (mtok r)))))).
+    { unfold observe_key, cnt_ok. destruct (is_observe_response r); [|auto]. destruct (get_sent_request e (mtok r)); [|auto].
+      destruct (bmore b); cbn [fst efresh ehid eoutside with_sending with_counters]; (split; [lia|split; [lia|exact Hx]]). }
+    destruct (observe_key e r b (get_sent_request e (mtok r))) as [[e0 key] ok]. cbn [fst] in Hk. unfold cnt_ok in Hk.
+    destruct (negb ok); [exact Hk|].
+    destruct (tget (receiving e0) key); destruct (bmore b); try (destruct (negb (bnum b =? 0)); exact Hk).
+    all: match goal with |- context [reasm ?a ?b0 ?c1] => destruct (reasm a b0 c1) as [cm' appended] end.
+    all: match goal with |- context [if ?cnd then _ else _] => destruct cnd end.
+    all: try (destruct (mtok cm' =? key)).
+    all: exact Hk.
+  Qed.
+
+  Lemma handle_cnt X app e r : cnt_ok X e -> let '(e', _, _, _) := handle app e r in cnt_ok X e'.
+  Proof.
+    intros Hc. unfold handle.
+    assert (Hcs : forall e0, cnt_ok X e0 -> forall e1, efresh e1 = efresh e0 -> ehid e1 = ehid e0 -> eoutside e1 = eoutside e0 -> cnt_ok X e1).
+    { intros e0 H0 e1 H1 H2 H3. unfold cnt_ok. rewrite H1, H2, H3. exact H0. }
+    assert (Hhr : cnt_ok X (fst (fst (handle_received app e r)))).
+    { unfold handle_received.
+      destruct ((mcode r =? 0) || ((225 <=? mcode r) && (mcode r <=? 229))); [exact Hc|].
+      destruct ((mcode r =? GET) || (mcode r =? DELETE)).
+      - match goal with |- context [start_sending ?a ?b ?c0 ?d ?f] =>
+          pose proof (start_sending_cfg a b c0 d f) as Hs; destruct (start_sending a b c0 d f) as [e' o] end.
+        cbn [fst] in *. destruct Hs as (_ & _ & Hs1 & Hs2 & Hs3). apply (Hcs e Hc); assumption.
+      - match goal with |- context [process_received ?a ?b ?c0 ?d ?f] =>
+          pose proof (process_received_cnt X a b c0 d f Hc) as Hp; destruct (process_received a b c0 d f) as [[e1 o] d0] end.
+        cbn [fst] in Hp. destruct o as [w|]; [|exact Hp].
+        match goal with |- context [start_sending ?a ?b ?c0 ?d ?f] =>
+          pose proof (start_sending_cfg a b c0 d f) as Hs; destruct (start_sending a b c0 d f) as [e' o'] end.
+        cbn [fst] in *. destruct Hs as (_ & _ & Hs1 & Hs2 & Hs3). apply (Hcs e1 Hp); assumption. }
+    assert (Hrecv : let '(e', _, _, _) :=
+              (let '(e', o, d) := handle_received app e r in
+               match o with Out w => (e', w, d, 0) | Fail => (e', Some (entity_incomplete (mtok r)), d, 1) end) in cnt_ok X e').
+    { destruct (handle_received app e r) as [[e1 o] d]. cbn [fst] in Hhr. destruct o; exact Hhr. }
+    destruct (tget (sending e) (mtok r)) as [orig|]; [|exact Hrecv].
+    destruct (wants_to_be_received r); [exact Hrecv|].
+    assert (Hco : eoutside (fst (fst (continue_sending e r orig))) = eoutside e) by (unfold continue_sending; crush_match; reflexivity).
+    pose proof (continue_sending_cfg e r orig) as Hcc.
+    destruct (continue_sending e r orig) as [[e2 w] err]. cbn [fst] in Hcc, Hco. destruct Hcc as (_ & _ & H1 & H2).
+    apply (Hcs e Hc); assumption.
+  Qed.
+
+  Definition wcnt (w : world) : Prop := cnt_ok (coutside c) (wa w) /\ cnt_ok [] (wb w).
+
+  Lemma complete_cnt X p d e : cnt_ok X e -> cnt_ok X (snd (fst (complete p d e))).
+  Proof.
+    revert e. induction p as [|[i t] p IH]; intros e Hc; cbn [complete]; [exact Hc|].
+    destruct (existsb (fun m => mtok m =? t) d).
+    - specialize (IH (with_sending e (tdel (sending e) t)) Hc).
+      destruct (complete p d (with_sending e (tdel (sending e) t))) as [[p' e'] rets]. exact IH.
+    - specialize (IH e Hc). destruct (complete p d e) as [[p' e'] rets]. exact IH.
+  Qed.
+
+  Lemma arrive_cnt w toB m : wcnt w -> wcnt (fst (arrive c w toB m)).
+  Proof.
+    intros [Ha Hb]. unfold arrive. destruct toB.
+    - pose proof (handle_cnt [] (app_b c (vers w)) (wb w) m Hb) as Hh.
+      destruct (handle (app_b c (vers w)) (wb w) m) as [[[e' o] d] nerr]. cbn [fst]. unfold wcnt. rewrite emit_wa, emit_wb. split; assumption.
+    - pose proof (handle_cnt (coutside c) app_a (wa w) m Ha) as Hh.
+      destruct (handle app_a (wa w) m) as [[[e' o] d] nerr].
+      pose proof (complete_cnt (coutside c) (pending w) d e' Hh) as Hc.
+      destruct (complete (pending w) d e') as [[p' e''] rets]. cbn [fst snd] in *. unfold wcnt. rewrite emit_wa, emit_wb. split; assumption.
+  Qed.
+
+  Lemma step_cnt w e : wcnt w -> wcnt (fst (step c w e)).
+  Proof.
+    intros Hc. pose proof Hc as [Ha Hb].
+    assert (Hss : forall X e0 w0 mx mm b, cnt_ok X e0 -> cnt_ok X (fst (start_sending e0 w0 mx mm b))).
+    { intros X e0 w0 mx mm b H0. pose proof (start_sending_cfg e0 w0 mx mm b) as Hs. cbv zeta in Hs.
+      destruct Hs as (_ & _ & H1 & H2 & H3). unfold cnt_ok. rewrite H1, H2, H3. exact H0. }
+    destruct e as [i|j|j|j|h|k|i|atB]; cbn [step].
+    - destruct (nth_error (cexch c) i) as [x|]; [|exact Hc].
+      destruct (xkind x =? 0).
+      + assert (Hd : cnt_ok (coutside c) (fst (do_start (wa w) (request_of x)))).
+        { unfold do_start. destruct (tget (sending (wa w)) (mtok (request_of x))); [exact Ha|].
+          destruct (blen (mbody (request_of x)) <=? size (eszx (wa w))); [exact Ha|].
+          destruct (negb (is_upload (mcode (request_of x)))); exact Ha. }
+        destruct (do_start (wa w) (request_of x)) as [e' [m|]]; cbn [fst] in *; unfold started, wcnt; cbn [fst];
+          rewrite emit_wa, emit_wb; split; assumption.
+      + destruct (xkind x =? 1); unfold write_start.
+        * match goal with |- context [start_sending ?a ?b0 ?c0 ?d ?f] =>
+            pose proof (Hss _ a b0 c0 d f Ha) as Hs; destruct (start_sending a b0 c0 d f) as [e' [m|]] end;
+          cbn [fst] in *; unfold started, wcnt; cbn [fst]; rewrite emit_wa, emit_wb; split; assumption.
+        * match goal with |- context [start_sending ?a ?b0 ?c0 ?d ?f] =>
+            pose proof (Hss _ a b0 c0 d f Hb) as Hs; destruct (start_sending a b0 c0 d f) as [e' [m|]] end;
+          cbn [fst] in *; unfold started, wcnt; cbn [fst]; rewrite emit_wa, emit_wb; split; assumption.
+    - destruct (nth_error (flight w) j) as [[toB m]|]; [|exact Hc]. apply arrive_cnt. exact Hc.
+    - destruct (nth_error (flight w) j) as [[toB m]|]; [|exact Hc]. apply arrive_cnt. exact Hc.
+    - exact Hc.
+    - destruct (nth_error (whist w) h) as [[toB m]|]; [|exact Hc]. apply arrive_cnt. exact Hc.
+    - exact Hc.
+    - destruct (find (fun p => Nat.eqb (fst p) i) (pending w)) as [[i' t]|]; exact Hc.
+    - destruct atB; exact Hc.
+  Qed.
+
+  (* ---------------------------------------------------------------------- *)
+  (* 13. isolation over whole runs: whatever happens to token t in a run with *)
+  (*     any number of concurrent exchanges also happens in a run in which    *)
+  (*     only the exchanges with token t exist on the wire (simulation)       *)
+  Definition filt (t : Z) (l : list (bool * msg)) : list (bool * msg) := filter (fun p => mtok (snd p) =? t) l.
+  Definition pfilt (t : Z) (p : list (nat * Z)) : list (nat * Z) := filter (fun q => snd q =? t) p.
+  Definition cnt {A} (f : A -> bool) (l : list A) : nat := length (filter f l).
+
+  Lemma filter_nth_true {A} (f : A -> bool) : forall l j a,
+    nth_error l j = Some a -> f a = true ->
+    nth_error (filter f l) (cnt f (firstn j l)) = Some a /\
+    filter f (remove_nth j l) = remove_nth (cnt f (firstn j l)) (filter f l).
+  Proof.
+    induction l as [|x l IH]; intros j a Hn Hf; [destruct j; discriminate|].
+    destruct j as [|j]; cbn [nth_error] in Hn.
+    - injection Hn as ->. cbn [firstn filter cnt length remove_nth]. rewrite Hf. cbn [nth_error remove_nth]. auto.
+    - destruct (IH j a Hn Hf) as [H1 H2]. cbn [firstn filter remove_nth]. unfold cnt in *. cbn [filter].
+      destruct (f x); cbn [length nth_error remove_nth]; [split; [exact H1|rewrite H2; reflexivity]|split; assumption].
+  Qed.
+  Lemma filter_nth_false {A} (f : A -> bool) : forall l j a,
+    nth_error l j = Some a -> f a = false -> filter f (remove_nth j l) = filter f l.
+  Proof.
+    induction l as [|x l IH]; intros j a Hn Hf; [destruct j; discriminate|].
+    destruct j as [|j]; cbn [nth_error] in Hn.
+    - injection Hn as ->. cbn [remove_nth filter]. rewrite Hf. reflexivity.
+    - cbn [remove_nth filter]. rewrite (IH j a Hn Hf). reflexivity.
+  Qed.
+  Lemma remove_nth_none {A} : forall (l : list A) j, nth_error l j = None -> remove_nth j l = l.
+  Proof.
+    induction l as [|x l IH]; intros j Hn; [destruct j; reflexivity|].
+    destruct j; [discriminate|]. cbn [remove_nth]. rewrite IH by exact Hn. reflexivity.
+  Qed.
+  Lemma filt_app t l1 l2 : filt t (l1 ++ l2) = filt t l1 ++ filt t l2.
+  Proof. apply filter_app. Qed.
+
+  Definition sim (t : Z) (w u : world) : Prop :=
+    tget (sending (wa w)) t = tget (sending (wa u)) t /\ tget (receiving (wa w)) t = tget (receiving (wa u)) t /\
+    tget (sending (wb w)) t = tget (sending (wb u)) t /\ tget (receiving (wb w)) t = tget (receiving (wb u)) t /\
+    vers w = vers u /\ filt t (flight w) = flight u /\ filt t (whist w) = whist u /\ pfilt t (pending w) = pending u.
+
+  (* the deliveries of one event that carry token t, with the side they were made at *)
+  Definition tdeliv (t : Z) (o : mob) : list (Z * msg) :=
+    map (pair (mo_side o)) (filter (fun d => mtok d =? t) (mo_deliv o)).
+
+  Lemma sim_emit t w u toB o :
+    sim t w u -> (forall x, o = Some x -> mtok x = t) -> sim t (emit w toB o) (emit u toB o).
+  Proof.
+    intros (H1 & H2 & H3 & H4 & H5 & H6 & H7 & H8) Ho. destruct o as [x|]; [|repeat split; assumption].
+    unfold sim, emit. cbn [wa wb vers flight whist pending]. repeat (split; [assumption|]).
+    rewrite !filt_app. unfold filt at 2 4. cbn [filter snd]. rewrite (Ho x eq_refl), Z.eqb_refl.
+    split; [rewrite H6; reflexivity|]. split; [rewrite H7; reflexivity|exact H8].
+  Qed.
+  Lemma sim_emit_other t w u toB o :
+    sim t w u -> (forall x, o = Some x -> mtok x <> t) -> sim t (emit w toB o) u.
+  Proof.
+    intros (H1 & H2 & H3 & H4 & H5 & H6 & H7 & H8) Ho. destruct o as [x|]; [|repeat split; assumption].
+    unfold sim, emit. cbn [wa wb vers flight whist pending]. repeat (split; [assumption|]).
+    rewrite !filt_app. unfold filt at 2 4. cbn [filter snd].
+    replace (mtok x =? t) with false by (symmetry; apply Z.eqb_neq; apply Ho; reflexivity).
+    rewrite !app_nil_r. repeat split; assumption.
+  Qed.
+
+  (* complete, seen through the filter *)
+  Lemma complete_same t : forall p d e1 e2,
+    (forall x, In x d -> mtok x = t) -> tget (sending e1) t = tget (sending e2) t ->
+    let '(p1, e1', r1) := complete p d e1 in
+    let '(p2, e2', r2) := complete (pfilt t p) d e2 in
+    p2 = pfilt t p1 /\ r1 = r2 /\ tget (sending e1') t = tget (sending e2') t /\
+    receiving e1' = receiving e1 /\ receiving e2' = receiving e2.
+  Proof.
+    induction p as [|[i t0] p IH]; intros d e1 e2 Hd Hs; cbn [complete pfilt filter]; [auto|].
+    cbn [snd]. destruct (t0 =? t) eqn:Et.
+    - apply Z.eqb_eq in Et. subst t0. cbn [complete].
+      destruct (existsb (fun m => mtok m =? t) d).
+      + specialize (IH d (with_sending e1 (tdel (sending e1) t)) (with_sending e2 (tdel (sending e2) t)) Hd).
+        cbn [sending with_sending] in IH. specialize (IH (tget_tdel_congr _ _ _ _ Hs)). fold (pfilt t p) in *.
+        destruct (complete p d (with_sending e1 (tdel (sending e1) t))) as [[p1 e1'] r1].
+        destruct (complete (pfilt t p) d (with_sending e2 (tdel (sending e2) t))) as [[p2 e2'] r2].
+        destruct IH as (A1 & A2 & A3 & A4 & A5). rewrite A2. auto.
+      + specialize (IH d e1 e2 Hd Hs). fold (pfilt t p) in *.
+        destruct (complete p d e1) as [[p1 e1'] r1]. destruct (complete (pfilt t p) d e2) as [[p2 e2'] r2].
+        destruct IH as (A1 & A2 & A3 & A4 & A5). cbn [pfilt filter snd]. rewrite Z.eqb_refl. fold (pfilt t p1). rewrite A1. auto.
+    - assert (Hex : existsb (fun m => mtok m =? t0) d = false).
+      { destruct (existsb (fun m => mtok m =? t0) d) eqn:E; [|reflexivity]. apply existsb_exists in E. destruct E as [x [Hx E]].
+        apply Z.eqb_eq in E. rewrite (Hd x Hx) in E. subst t0. rewrite Z.eqb_refl in Et. discriminate. }
+      rewrite Hex. specialize (IH d e1 e2 Hd Hs). fold (pfilt t p) in *.
+      destruct (complete p d e1) as [[p1 e1'] r1]. destruct (complete (pfilt t p) d e2) as [[p2 e2'] r2].
+      destruct IH as (A1 & A2 & A3 & A4 & A5). cbn [pfilt filter snd]. rewrite Et. fold (pfilt t p1). auto.
+  Qed.
+
+  Lemma complete_other t : forall p d e,
+    (forall x, In x d -> mtok x <> t) ->
+    let '(p', e', _) := complete p d e in
+    pfilt t p' = pfilt t p /\ tget (sending e') t = tget (sending e) t /\ receiving e' = receiving e.
+  Proof.
+    induction p as [|[i t0] p IH]; intros d e Hd; cbn [complete]; [auto|].
+    destruct (existsb (fun m => mtok m =? t0) d) eqn:Ex.
+    - assert (Hne : t0 <> t).
+      { apply existsb_exists in Ex. destruct Ex as [x [Hx E]]. apply Z.eqb_eq in E. intros ->. exact (Hd x Hx E). }
+      specialize (IH d (with_sending e (tdel (sending e) t0)) Hd).
+      destruct (complete p d (with_sending e (tdel (sending e) t0))) as [[p' e'] rets]. destruct IH as (A1 & A2 & A3).
+      cbn [pfilt filter snd]. replace (t0 =? t) with false by (symmetry; apply Z.eqb_neq; exact Hne). fold (pfilt t p).
+      split; [exact A1|]. split; [|exact A3]. rewrite A2. cbn [sending with_sending]. apply tget_tdel_other. exact Hne.
+    - specialize (IH d e Hd). destruct (complete p d e) as [[p' e'] rets]. destruct IH as (A1 & A2 & A3).
+      cbn [pfilt filter snd]. fold (pfilt t p') (pfilt t p). rewrite A1. auto.
+  Qed.
+
+  Lemma app_b_tok vs t d w : app_b c vs t d = Some w -> mtok w = t.
+  Proof.
+    unfold app_b. destruct ((GET <=? mcode d) && (mcode d <=? DELETE)); [|discriminate].
+    destruct (zassoc (mother d) 11); [|discriminate]. destruct (nth_error (cres c) (Z.to_nat z)); [|discriminate].
+    intros E. injection E as <-. reflexivity.
+  Qed.
+  Lemma app_a_tok t d w : app_a t d = Some w -> mtok w = t.
+  Proof. discriminate. Qed.
+
+  Lemma okB_szx V m : okB V m -> forall b, mb1 m = Some b \/ mb2 m = Some b -> 0 <= bszx b.
+  Proof.
+    intros [[x [_ [_ [_ [Hb2 Hb1]]]]]|[[_ [Hn2 [_ Hcode]]] Hinc]] b [Hb|Hb].
+    - rewrite Hb in Hb1. lia.
+    - apply (Hb2 b Hb).
+    - destruct Hcode as [[Hc _]|[_ Hn]]; [rewrite Hc in Hinc; discriminate Hinc|congruence].
+    - congruence.
+  Qed.
+  Lemma okA_szx V m : okA V m -> forall b, mb1 m = Some b \/ mb2 m = Some b -> 0 <= bszx b.
+  Proof.
+    intros [[x [r [v [_ [_ [_ [[_ [_ [_ [_ Hn1]]]] [_ Hbody]]]]]]]]|[_ [Hn2 [_ Hcode]]]] b [Hb|Hb].
+    - congruence.
+    - rewrite Hb in Hbody. lia.
+    - destruct Hcode as [[_ Hbb]|[_ Hn]]; [apply (Hbb b Hb)|congruence].
+    - congruence.
+  Qed.
+
+  Lemma sendA_key t k m : sendA t -> tget t k = Some m -> mtok m = k.
+  Proof. intros Hs Hg. destruct (Hs _ _ Hg) as [x [_ [Hk ->]]]. exact Hk. Qed.
+  Lemma sendB_key V t k m : sendB V t -> tget t k = Some m -> mtok m = k.
+  Proof. intros Hs Hg. destruct (Hs _ _ Hg) as [Hk _]. exact Hk. Qed.
+
+  (* a message with token t arrives in both worlds *)
+  Lemma arrive_same N t w u toB m :
+    sim t w u -> winv N w -> winv N u -> wcnt w -> wcnt u ->
+    (if toB : bool then okB (Vof w) m else okA (Vof w) m) -> mtok m = t ->
+    let '(w1, o1) := arrive c w toB m in
+    let '(u1, o2) := arrive c u toB m in
+    sim t w1 u1 /\ mo_deliv o1 = mo_deliv o2 /\ mo_side o1 = mo_side o2.
+  Proof.
+    intros Hsim Hw Hu Hcw Hcu Hm Htok. pose proof Hsim as (S1 & S2 & S3 & S4 & S5 & S6 & S7 & S8).
+    destruct Hw as (HAw & HBw & _). destruct Hu as (HAu & HBu & _).
+    unfold arrive. destruct toB.
+    - rewrite <- S5.
+      assert (Hag : agree_at (mtok m) (wb w) (wb u)).
+      { rewrite Htok. destruct HBw as (E1 & E2 & _). destruct HBu as (F1 & F2 & _).
+        destruct Hcw as [_ (_ & _ & O1)]. destruct Hcu as [_ (_ & _ & O2)].
+        unfold agree_at. rewrite E1, E2, F1, F2, O1, O2. auto. }
+      pose proof (handle_congr (app_b c (vers w)) (app_b_tok (vers w)) (wb w) (wb u) m (okB_nonobs _ _ Hm) Hag) as Hc.
+      destruct (handle (app_b c (vers w)) (wb w) m) as [[[e1 o1] d1] n1].
+      destruct (handle (app_b c (vers w)) (wb u) m) as [[[e2 o2] d2] n2].
+      destruct Hc as (<- & <- & <- & Hag' & Hot).
+      { intros m0 Hg. destruct HBw as (_ & _ & Hs & _). eapply sendB_key; eassumption. }
+      cbn [mo_deliv mo_side]. split; [|auto]. apply sim_emit; [|intros x E; rewrite <- Htok; apply Hot; exact E].
+      destruct Hag' as (_ & _ & _ & G1 & G2). rewrite Htok in G1, G2.
+      unfold sim. cbn [wa wb vers flight whist pending with_b]. auto 10.
+    - assert (Hag : agree_at (mtok m) (wa w) (wa u)).
+      { rewrite Htok. destruct HAw as (E1 & E2 & E3 & _). destruct HAu as (F1 & F2 & F3 & _).
+        unfold agree_at. rewrite E1, E2, E3, F1, F2, F3. auto. }
+      pose proof (handle_congr app_a app_a_tok (wa w) (wa u) m (okA_nonobs _ _ Hm) Hag) as Hc.
+      pose proof (handle_once_pot app_a (wa w) m (okA_nonobs _ _ Hm)) as Hop.
+      destruct (handle app_a (wa w) m) as [[[e1 o1] d1] n1].
+      destruct (handle app_a (wa u) m) as [[[e2 o2] d2] n2].
+      destruct Hc as (<- & <- & <- & Hag' & Hot).
+      { intros m0 Hg. destruct HAw as (_ & _ & _ & Hs & _). eapply sendA_key; eassumption. }
+      destruct Hop as (_ & Hdt & _).
+      { intros cm Hg. destruct HAw as (_ & _ & _ & _ & Hr). eapply recvA_key; eassumption. }
+      rewrite Htok in Hdt. destruct Hag' as (_ & _ & _ & G1 & G2). rewrite Htok in G1, G2.
+      pose proof (complete_same t (pending w) d1 e1 e2 Hdt G1) as Hcs. rewrite S8 in Hcs.
+      destruct (complete (pending w) d1 e1) as [[p1 e1'] r1]. destruct (complete (pending u) d1 e2) as [[p2 e2'] r2].
+      destruct Hcs as (P1 & P2 & P3 & P4 & P5).
+      cbn [mo_deliv mo_side]. split; [|auto]. apply sim_emit; [|intros x E; rewrite <- Htok; apply Hot; exact E].
+      unfold sim. cbn [wa wb vers flight whist pending with_a with_pending]. rewrite P4, P5. auto 10.
+  Qed.
+
+  (* a message with another token arrives (in the full world only) *)
+  Lemma arrive_other N t w u toB m :
+    sim t w u -> winv N w -> wcnt w ->
+    (if toB : bool then okB (Vof w) m else okA (Vof w) m) -> mtok m <> t -> 0 <= t < FRESH ->
+    let '(w1, o1) := arrive c w toB m in sim t w1 u /\ tdeliv t o1 = [].
+  Proof.
+    intros Hsim Hw Hcw Hm Hne Ht. pose proof Hsim as (S1 & S2 & S3 & S4 & S5 & S6 & S7 & S8).
+    destruct Hw as (HAw & HBw & _).
+    assert (Hnil : forall (side : Z) (d : list msg), (forall x, In x d -> mtok x = mtok m) ->
+                   map (pair side) (filter (fun x => mtok x =? t) d) = []).
+    { intros side d Hd. induction d as [|x d IH]; [reflexivity|]. cbn [filter].
+      rewrite (Hd x (or_introl eq_refl)). replace (mtok m =? t) with false by (symmetry; apply Z.eqb_neq; exact Hne).
+      apply IH. intros y Hy. apply Hd. right. exact Hy. }
+    unfold arrive. destruct toB.
+    - destruct HBw as (E1 & E2 & Hs & Hr). destruct Hcw as [_ (C1 & C2 & _)].
+      assert (Hsz : 0 <= eszx (wb w) <= 7) by (rewrite E1; apply (wf_szxB c Hwf)).
+      pose proof (handle_isolated (app_b c (vers w)) (app_b_tok (vers w)) (wb w) m t Hsz (okB_szx _ _ Hm) C1 C2 (not_eq_sym Hne) Ht) as Hi.
+      pose proof (handle_congr (app_b c (vers w)) (app_b_tok (vers w)) (wb w) (wb w) m (okB_nonobs _ _ Hm) (agree_refl _ _)) as Hc.
+      pose proof (handle_once_pot (app_b c (vers w)) (wb w) m (okB_nonobs _ _ Hm)) as Hop.
+      destruct (handle (app_b c (vers w)) (wb w) m) as [[[e1 o1] d1] n1].
+      destruct Hc as (_ & _ & _ & _ & Hot); [intros m0 Hg; eapply sendB_key; eassumption|].
+      destruct Hop as (_ & Hdt & _); [intros cm Hg; eapply recvB_key; eassumption|].
+      destruct Hi as [I1 I2].
+      split; [|unfold tdeliv; cbn [mo_deliv mo_side]; apply Hnil; exact Hdt].
+      apply sim_emit_other; [|intros x E; rewrite (Hot x E); exact Hne].
+      unfold sim. cbn [wa wb vers flight whist pending with_b]. rewrite I1, I2. auto 10.
+    - destruct HAw as (E1 & E2 & E3 & Hs & Hr). destruct Hcw as [(C1 & C2 & _) _].
+      assert (Hsz : 0 <= eszx (wa w) <= 7) by (rewrite E1; apply (wf_szxA c Hwf)).
+      pose proof (handle_isolated app_a app_a_tok (wa w) m t Hsz (okA_szx _ _ Hm) C1 C2 (not_eq_sym Hne) Ht) as Hi.
+      pose proof (handle_congr app_a app_a_tok (wa w) (wa w) m (okA_nonobs _ _ Hm) (agree_refl _ _)) as Hc.
+      pose proof (handle_once_pot app_a (wa w) m (okA_nonobs _ _ Hm)) as Hop.
+      destruct (handle app_a (wa w) m) as [[[e1 o1] d1] n1].
+      destruct Hc as (_ & _ & _ & _ & Hot); [intros m0 Hg; eapply sendA_key; eassumption|].
+      destruct Hop as (_ & Hdt & _); [intros cm Hg; eapply recvA_key; eassumption|].
+      destruct Hi as [I1 I2].
+      pose proof (complete_other t (pending w) d1 e1) as Hco.
+      destruct (complete (pending w) d1 e1) as [[p1 e1'] r1].
+      destruct Hco as (P1 & P2 & P3); [intros x Hx; rewrite (Hdt x Hx); exact Hne|].
+      split; [|unfold tdeliv; cbn [mo_deliv mo_side]; apply Hnil; exact Hdt].
+      apply sim_emit_other; [|intros x E; rewrite (Hot x E); exact Hne].
+      unfold sim. cbn [wa wb vers flight whist pending with_a with_pending]. rewrite P1, P2, P3, I1, I2. auto 10.
+  Qed.
+
+  Lemma do_start_congr t e1 e2 r :
+    mtok r = t -> agree_at t e1 e2 ->
+    let '(e1', o1) := do_start e1 r in let '(e2', o2) := do_start e2 r in
+    o1 = o2 /\ agree_at t e1' e2' /\ (forall m, o1 = Some m -> mtok m = t).
+  Proof.
+    intros Ht Hag. pose proof Hag as (H1 & H2 & H3 & H4 & H5). unfold do_start. rewrite Ht, <- H4, <- H1, <- H2.
+    destruct (tget (sending e1) t) eqn:Es; [split; [reflexivity|split; [exact Hag|discriminate]]|].
+    assert (Hput : agree_at t (with_sending e1 (tput (sending e1) t r)) (with_sending e2 (tput (sending e2) t r))).
+    { unfold agree_at. cbn [eszx emax eoutside sending receiving with_sending]. repeat (split; [assumption|]).
+      split; [|exact H5]. apply tget_tput_congr. rewrite Es. exact H4. }
+    destruct (blen (mbody r) <=? size (eszx e1)).
+    { split; [reflexivity|split; [exact Hput|]]. intros m E. injection E as <-. exact Ht. }
+    destruct (negb (is_upload (mcode r))).
+    { split; [reflexivity|split; [|discriminate]]. unfold agree_at. cbn [eszx emax eoutside sending receiving with_sending].
+      repeat (split; [assumption|]). split; [|exact H5]. apply tget_tdel_congr, tget_tput_congr. rewrite Es. exact H4. }
+    split; [reflexivity|split; [exact Hput|]]. intros m E. injection E as <-. exact Ht.
+  Qed.
+
+  Lemma do_start_other t e r :
+    mtok r <> t ->
+    let '(e', o) := do_start e r in
+    tget (sending e') t = tget (sending e) t /\ receiving e' = receiving e /\ (forall m, o = Some m -> mtok m = mtok r).
+  Proof.
+    intros Hne. unfold do_start. destruct (tget (sending e) (mtok r)); [split; [reflexivity|split; [reflexivity|discriminate]]|].
+    destruct (blen (mbody r) <=? size (eszx e)).
+    { cbn [sending receiving with_sending]. split; [apply tget_tput_other; exact Hne|split; [reflexivity|]].
+      intros m E. injection E as <-. reflexivity. }
+    destruct (negb (is_upload (mcode r))); cbn [sending receiving with_sending].
+    - split; [rewrite tget_tdel_other by exact Hne; apply tget_tput_other; exact Hne|split; [reflexivity|discriminate]].
+    - split; [apply tget_tput_other; exact Hne|split; [reflexivity|]]. intros m E. injection E as <-. reflexivity.
+  Qed.
+
+  Lemma start_sending_other t e wm mx mm b :
+    mtok wm <> t ->
+    let '(e', o) := start_sending e (Some wm) mx mm b in
+    tget (sending e') t = tget (sending e) t /\ receiving e' = receiving e /\ (forall m, o = Out (Some m) -> mtok m = mtok wm).
+  Proof.
+    intros Hne. unfold start_sending.
+    destruct (blen (mbody wm) <? size mx).
+    { split; [reflexivity|split; [reflexivity|]]. intros m E. injection E as <-. reflexivity. }
+    destruct (create_sending wm mx mm b) as [[sm more]|] eqn:Hcs; [|split; [reflexivity|split; [reflexivity|discriminate]]].
+    pose proof (create_sending_tok _ _ _ _ _ _ Hcs) as Htk.
+    destruct (is_observe_response sm).
+    { split; [reflexivity|split; [reflexivity|]]. intros m E. injection E as <-. exact Htk. }
+    destruct (tget (sending e) (mtok sm)); [split; [reflexivity|split; [reflexivity|discriminate]]|].
+    cbn [sending receiving with_sending]. rewrite Htk.
+    split; [apply tget_tput_other; exact Hne|split; [reflexivity|]]. intros m E. injection E as <-. exact Htk.
+  Qed.
+
+  Lemma find_filter {A} (f g : A -> bool) : forall l a, find f l = Some a -> g a = true -> find f (filter g l) = Some a.
+  Proof.
+    induction l as [|x l IH]; intros a Hf Hg; [discriminate|]. cbn [find] in Hf. cbn [filter].
+    destruct (f x) eqn:Ef.
+    - injection Hf as ->. rewrite Hg. cbn [find]. rewrite Ef. reflexivity.
+    - destruct (g x); [cbn [find]; rewrite Ef|]; apply IH; assumption.
+  Qed.
+  Lemma filter_comm {A} (f g : A -> bool) l : filter f (filter g l) = filter g (filter f l).
+  Proof.
+    induction l as [|x l IH]; [reflexivity|]. cbn [filter].
+    destruct (g x) eqn:Eg; destruct (f x) eqn:Ef; cbn [filter]; rewrite ?Eg, ?Ef, IH; reflexivity.
+  Qed.
+  Lemma find_some_prop {A} (f : A -> bool) l a : find f l = Some a -> In a l /\ f a = true.
+  Proof. apply find_some. Qed.
+
+  (* removing the pending entries of exchange i does not touch the entries of another token *)
+  Lemma pfilt_timeout_other t i t0 p :
+    pend_ok p -> In (i, t0) p -> t0 <> t -> pfilt t (filter (fun q => negb (Nat.eqb (fst q) i)) p) = pfilt t p.
+  Proof.
+    intros Hp Hin Hne.
+    assert (Hall : forall q, In q p -> fst q = i -> snd q = t0).
+    { intros [i' t'] Hq E. cbn in E. subst i'. destruct (Hp i t' Hq) as [x [Hx <-]]. destruct (Hp i t0 Hin) as [y [Hy <-]]. cbn [snd]. rewrite Hx in Hy. injection Hy as ->. reflexivity. }
+    clear Hin Hp. induction p as [|[i' t'] p IH]; [reflexivity|]. cbn [filter fst].
+    destruct (Nat.eqb i' i) eqn:Ei; cbn [negb].
+    - apply Nat.eqb_eq in Ei. subst i'. pose proof (Hall (i, t') (or_introl eq_refl) eq_refl) as E. cbn in E. subst t'.
+      cbn [pfilt filter snd]. replace (t0 =? t) with false by (symmetry; apply Z.eqb_neq; exact Hne).
+      apply IH. intros q Hq. apply Hall. right. exact Hq.
+    - cbn [pfilt filter snd]. fold (pfilt t (filter (fun q => negb (Nat.eqb (fst q) i)) p)) (pfilt t p).
+      rewrite IH by (intros q Hq; apply Hall; right; exact Hq). reflexivity.
+  Qed.
+
+  Definition solo_ok (t : Z) (es : list ev) : Prop :=
+    forall i, In (Start i) es -> exists x, nth_error (cexch c) i = Some x /\ xtok x = t.
+
+  Definition sim_step (t : Z) (w u : world) (e : ev) (es' : list ev) : Prop :=
+    (forall k, bumps es' k = bump_count e k) /\ Forall bump_ok es' /\ solo_ok t es' /\
+    sim t (fst (step c w e)) (exec u es') /\
+    tdeliv t (snd (step c w e)) = flat_map (tdeliv t) (run c u es').
+
+  Lemma sim_step_nil t w u e :
+    (forall k, bump_count e k = 0) -> sim t (fst (step c w e)) u -> tdeliv t (snd (step c w e)) = [] -> sim_step t w u e [].
+  Proof.
+    intros Hb Hs Hd. split; [intros k; rewrite Hb; reflexivity|]. split; [constructor|]. split; [intros i []|].
+    split; [exact Hs|exact Hd].
+  Qed.
+  Lemma sim_step_one t w u e e' :
+    (forall k, bump_count e' k = bump_count e k) -> bump_ok e' ->
+    (forall i, e' = Start i -> exists x, nth_error (cexch c) i = Some x /\ xtok x = t) ->
+    sim t (fst (step c w e)) (fst (step c u e')) -> tdeliv t (snd (step c w e)) = tdeliv t (snd (step c u e')) ->
+    sim_step t w u e [e'].
+  Proof.
+    intros Hb Hbo Hso Hs Hd. split; [intros k; rewrite bumps_cons, Hb; unfold bumps; cbn; lia|].
+    split; [constructor; [exact Hbo|constructor]|]. split; [intros i [E|[]]; apply Hso; exact E|].
+    cbn [exec run]. destruct (step c u e') as [u' o']. cbn [fst snd flat_map] in *. rewrite app_nil_r. auto.
+  Qed.
+
+  Lemma quiet_tdeliv t w0 : tdeliv t (snd (quiet w0)) = [].
+  Proof. reflexivity. Qed.
+
+  Lemma sim_with_flight t w u f g : sim t w u -> filt t f = g -> sim t (with_flight w f) (with_flight u g).
+  Proof. intros (H1 & H2 & H3 & H4 & H5 & H6 & H7 & H8) Hf. unfold sim. cbn [wa wb vers flight whist pending with_flight]. auto 10. Qed.
+  Lemma sim_with_flight_l t w u f : sim t w u -> filt t f = filt t (flight w) -> sim t (with_flight w f) u.
+  Proof.
+    intros (H1 & H2 & H3 & H4 & H5 & H6 & H7 & H8) Hf. unfold sim. cbn [wa wb vers flight whist pending with_flight].
+    rewrite Hf. auto 10.
+  Qed.
+
+  (* in-flight / history messages of the full world are well formed *)
+  Lemma winv_wire N w toB m : winv N w -> In (toB, m) (whist w) -> if toB : bool then okB (Vof w) m else okA (Vof w) m.
+  Proof. intros (_ & _ & Hw & _) Hin. exact (Hw _ _ Hin). Qed.
+
+  Lemma step_sim N t w u e :
+    sim t w u -> winv N w -> winv N u -> wcnt w -> wcnt u -> pend_ok (pending w) -> 0 <= t < FRESH -> bump_ok e ->
+    exists es', sim_step t w u e es'.
+  Proof.
+    intros Hsim Hw Hu Hcw Hcu Hpw Ht Hbo. pose proof Hsim as (S1 & S2 & S3 & S4 & S5 & S6 & S7 & S8).
+    pose proof Hw as (HAw & HBw & Hwire & Hfl & _). pose proof Hu as (HAu & HBu & _).
+    assert (HagA : agree_at t (wa w) (wa u)).
+    { destruct HAw as (E1 & E2 & E3 & _). destruct HAu as (F1 & F2 & F3 & _).
+      unfold agree_at. rewrite E1, E2, E3, F1, F2, F3. auto. }
+    destruct e as [i|j|j|j|h|k|i|atB].
+    - (* Start *)
+      cbn [step]. destruct (nth_error (cexch c) i) as [x|] eqn:Hx.
+      2: { exists []. apply sim_step_nil; cbn [step]; rewrite ?Hx; auto. }
+      pose proof (nth_error_In _ _ Hx) as Hxin. destruct (wf_exch c Hwf x Hxin) as [Hkind _].
+      destruct (Z.eq_dec (xtok x) t) as [Etok|Ntok].
+      + exists [Start i]. apply sim_step_one; auto.
+        { intros i' E. injection E as <-. exists x. auto. }
+        all: cbn [step]; rewrite Hx.
+        all: destruct (xkind x =? 0) eqn:K0.
+        * pose proof (do_start_congr t (wa w) (wa u) (request_of x) Etok HagA) as Hd.
+          destruct (do_start (wa w) (request_of x)) as [e1 o1]. destruct (do_start (wa u) (request_of x)) as [e2 o2].
+          destruct Hd as (<- & (_ & _ & _ & G1 & G2) & Hot).
+          destruct o1 as [m|]; unfold started; cbn [fst]; apply sim_emit; try (intros y E; apply Hot; exact E); try discriminate;
+            unfold sim; cbn [wa wb vers flight whist pending with_a with_pending]; auto 10.
+          unfold pfilt. rewrite filter_app. cbn [filter snd]. rewrite Etok, Z.eqb_refl. fold (pfilt t (pending w)). rewrite S8. auto 10.
+        * destruct (xkind x =? 1) eqn:K1; [|exfalso; apply Z.eqb_neq in K0, K1; lia]. unfold write_start.
+          destruct HAw as (E1 & E2 & _). destruct HAu as (F1 & F2 & _). rewrite E1, E2, F1, F2.
+          match goal with |- context [start_sending (wa w) ?w0 ?mx ?mm ?b] =>
+            pose proof (start_sending_congr t (wa w) (wa u) w0 mx mm b HagA) as Hs;
+            destruct (start_sending (wa w) w0 mx mm b) as [e1 o1]; destruct (start_sending (wa u) w0 mx mm b) as [e2 o2] end.
+          destruct Hs as (<- & (_ & _ & _ & G1 & G2) & Hot); [intros wm E; injection E as <-; exact Etok|].
+          destruct o1 as [m|]; unfold started; cbn [fst]; apply sim_emit; try (intros y E; apply Hot; rewrite E; reflexivity); try discriminate;
+            unfold sim; cbn [wa wb vers flight whist pending with_a]; auto 10.
+        * destruct (do_start (wa w) (request_of x)) as [e1 [m1|]]; destruct (do_start (wa u) (request_of x)) as [e2 [m2|]]; reflexivity.
+        * destruct (xkind x =? 1); unfold write_start;
+            repeat match goal with |- context [start_sending ?a ?w0 ?mx ?mm ?b] => destruct (start_sending a w0 mx mm b) as [? [?|]] end; reflexivity.
+      + exists []. apply sim_step_nil; auto; cbn [step]; rewrite Hx.
+        all: destruct (xkind x =? 0) eqn:K0.
+        * pose proof (do_start_other t (wa w) (request_of x) Ntok) as Hd.
+          destruct (do_start (wa w) (request_of x)) as [e1 o1]. destruct Hd as (G1 & G2 & Hot).
+          destruct o1 as [m|]; unfold started; cbn [fst]; apply sim_emit_other; try (intros y E; rewrite (Hot y E); exact Ntok); try discriminate;
+            unfold sim; cbn [wa wb vers flight whist pending with_a with_pending]; rewrite G1, G2; auto 10.
+          unfold pfilt. rewrite filter_app. cbn [filter snd]. replace (xtok x =? t) with false by (symmetry; apply Z.eqb_neq; exact Ntok).
+          rewrite app_nil_r. fold (pfilt t (pending w)). auto 10.
+        * destruct (xkind x =? 1) eqn:K1; [|exfalso; apply Z.eqb_neq in K0, K1; lia]. unfold write_start.
+          match goal with |- context [start_sending (wa w) (Some ?wm) ?mx ?mm ?b] =>
+            pose proof (start_sending_other t (wa w) wm mx mm b Ntok) as Hs; destruct (start_sending (wa w) (Some wm) mx mm b) as [e1 o1] end.
+          destruct Hs as (G1 & G2 & Hot).
+          destruct o1 as [m|]; unfold started; cbn [fst]; apply sim_emit_other; try (intros y E; rewrite (Hot y); [exact Ntok|rewrite E; reflexivity]); try discriminate;
+            unfold sim; cbn [wa wb vers flight whist pending with_a]; rewrite G1, G2; auto 10.
+        * destruct (do_start (wa w) (request_of x)) as [e1 [m1|]]; reflexivity.
+        * destruct (xkind x =? 1); unfold write_start;
+            repeat match goal with |- context [start_sending ?a ?w0 ?mx ?mm ?b] => destruct (start_sending a w0 mx mm b) as [? [?|]] end; reflexivity.
+    - (* Deliver *)
+      cbn [step]. destruct (nth_error (flight w) j) as [[toB m]|] eqn:Hj.
+      2: { exists []. apply sim_step_nil; cbn [step]; rewrite ?Hj; auto. }
+      pose proof (nth_error_In _ _ Hj) as Hin. pose proof (winv_wire N w toB m Hw (Hfl _ Hin)) as Hm.
+      assert (Hwf' : winv N (with_flight w (remove_nth j (flight w))))
+        by (apply winv_flight; [exact Hw|intros y Hy; eapply remove_nth_In; exact Hy]).
+      destruct (Z.eq_dec (mtok m) t) as [Etok|Ntok].
+      + destruct (filter_nth_true (fun p : bool * msg => mtok (snd p) =? t) (flight w) j (toB, m) Hj) as [Hj' Hrm];
+          [cbn; apply Z.eqb_eq; exact Etok|].
+        fold (filt t (flight w)) in Hj', Hrm. fold (filt t (remove_nth j (flight w))) in Hrm. rewrite S6 in Hj', Hrm.
+        set (j' := cnt (fun p : bool * msg => mtok (snd p) =? t) (firstn j (flight w))) in *.
+        assert (Huf' : winv N (with_flight u (remove_nth j' (flight u))))
+          by (apply winv_flight; [exact Hu|intros y Hy; eapply remove_nth_In; exact Hy]).
+        pose proof (arrive_same N t _ _ toB m (sim_with_flight t w u _ _ Hsim Hrm) Hwf' Huf' Hcw Hcu Hm Etok) as Har.
+        exists [Deliver j']. apply sim_step_one; [(intros; reflexivity)|first [exact I|exact Hbo]|discriminate| |]; cbn [step]; rewrite Hj, Hj';
+          destruct (arrive c (with_flight w (remove_nth j (flight w))) toB m) as [w1 o1];
+          destruct (arrive c (with_flight u (remove_nth j' (flight u))) toB m) as [u1 o2];
+          destruct Har as (Hs1 & Hd1 & Hd2); [exact Hs1|unfold tdeliv; cbn [snd]; rewrite Hd1, Hd2; reflexivity].
+      + assert (Hrm : filt t (remove_nth j (flight w)) = filt t (flight w)).
+        { apply (filter_nth_false (fun p : bool * msg => mtok (snd p) =? t) (flight w) j (toB, m) Hj). cbn. apply Z.eqb_neq. exact Ntok. }
+        pose proof (arrive_other N t _ u toB m (sim_with_flight_l t w u _ Hsim Hrm) Hwf' Hcw Hm Ntok Ht) as Har.
+        exists []. apply sim_step_nil; [(intros; reflexivity)| |]; cbn [step]; rewrite Hj;
+          destruct (arrive c (with_flight w (remove_nth j (flight w))) toB m) as [w1 o1]; apply Har.
+    - (* Dup *)
+      cbn [step]. destruct (nth_error (flight w) j) as [[toB m]|] eqn:Hj.
+      2: { exists []. apply sim_step_nil; cbn [step]; rewrite ?Hj; auto. }
+      pose proof (nth_error_In _ _ Hj) as Hin. pose proof (winv_wire N w toB m Hw (Hfl _ Hin)) as Hm.
+      destruct (Z.eq_dec (mtok m) t) as [Etok|Ntok].
+      + destruct (filter_nth_true (fun p : bool * msg => mtok (snd p) =? t) (flight w) j (toB, m) Hj) as [Hj' _];
+          [cbn; apply Z.eqb_eq; exact Etok|].
+        fold (filt t (flight w)) in Hj'. rewrite S6 in Hj'.
+        set (j' := cnt (fun p : bool * msg => mtok (snd p) =? t) (firstn j (flight w))) in *.
+        pose proof (arrive_same N t w u toB m Hsim Hw Hu Hcw Hcu Hm Etok) as Har.
+        exists [Dup j']. apply sim_step_one; [(intros; reflexivity)|first [exact I|exact Hbo]|discriminate| |]; cbn [step]; rewrite Hj, Hj';
+          destruct (arrive c w toB m) as [w1 o1]; destruct (arrive c u toB m) as [u1 o2];
+          destruct Har as (Hs1 & Hd1 & Hd2); [exact Hs1|unfold tdeliv; cbn [snd]; rewrite Hd1, Hd2; reflexivity].
+      + pose proof (arrive_other N t w u toB m Hsim Hw Hcw Hm Ntok Ht) as Har.
+        exists []. apply sim_step_nil; [(intros; reflexivity)| |]; cbn [step]; rewrite Hj; destruct (arrive c w toB m) as [w1 o1]; apply Har.
+    - (* Drop *)
+      cbn [step]. destruct (nth_error (flight w) j) as [[toB m]|] eqn:Hj.
+      2: { exists []. apply sim_step_nil; [(intros; reflexivity)| |reflexivity]; cbn [step quiet fst snd].
+           rewrite (remove_nth_none _ _ Hj). apply sim_with_flight_l; [exact Hsim|reflexivity]. }
+      destruct (Z.eq_dec (mtok m) t) as [Etok|Ntok].
+      + destruct (filter_nth_true (fun p : bool * msg => mtok (snd p) =? t) (flight w) j (toB, m) Hj) as [Hj' Hrm];
+          [cbn; apply Z.eqb_eq; exact Etok|].
+        fold (filt t (flight w)) in Hj', Hrm. fold (filt t (remove_nth j (flight w))) in Hrm. rewrite S6 in Hj', Hrm.
+        set (j' := cnt (fun p : bool * msg => mtok (snd p) =? t) (firstn j (flight w))) in *.
+        exists [Drop j']. apply sim_step_one; [(intros; reflexivity)|first [exact I|exact Hbo]|discriminate| |]; cbn [step quiet fst snd]; [|reflexivity].
+        apply sim_with_flight; assumption.
+      + exists []. apply sim_step_nil; [(intros; reflexivity)| |reflexivity]; cbn [step quiet fst snd].
+        apply sim_with_flight_l; [exact Hsim|].
+        apply (filter_nth_false (fun p : bool * msg => mtok (snd p) =? t) (flight w) j (toB, m) Hj). cbn. apply Z.eqb_neq. exact Ntok.
+    - (* Replay *)
+      cbn [step]. destruct (nth_error (whist w) h) as [[toB m]|] eqn:Hh.
+      2: { exists []. apply sim_step_nil; cbn [step]; rewrite ?Hh; auto. }
+      pose proof (nth_error_In _ _ Hh) as Hin. pose proof (winv_wire N w toB m Hw Hin) as Hm.
+      destruct (Z.eq_dec (mtok m) t) as [Etok|Ntok].
+      + destruct (filter_nth_true (fun p : bool * msg => mtok (snd p) =? t) (whist w) h (toB, m) Hh) as [Hh' _];
+          [cbn; apply Z.eqb_eq; exact Etok|].
+        fold (filt t (whist w)) in Hh'. rewrite S7 in Hh'.
+        set (h' := cnt (fun p : bool * msg => mtok (snd p) =? t) (firstn h (whist w))) in *.
+        pose proof (arrive_same N t w u toB m Hsim Hw Hu Hcw Hcu Hm Etok) as Har.
+        exists [Replay h']. apply sim_step_one; [(intros; reflexivity)|first [exact I|exact Hbo]|discriminate| |]; cbn [step]; rewrite Hh, Hh';
+          destruct (arrive c w toB m) as [w1 o1]; destruct (arrive c u toB m) as [u1 o2];
+          destruct Har as (Hs1 & Hd1 & Hd2); [exact Hs1|unfold tdeliv; cbn [snd]; rewrite Hd1, Hd2; reflexivity].
+      + pose proof (arrive_other N t w u toB m Hsim Hw Hcw Hm Ntok Ht) as Har.
+        exists []. apply sim_step_nil; [(intros; reflexivity)| |]; cbn [step]; rewrite Hh; destruct (arrive c w toB m) as [w1 o1]; apply Har.
+    - (* Bump *)
+      exists [Bump k]. apply sim_step_one; [(intros; reflexivity)|first [exact I|exact Hbo]|discriminate| |reflexivity]. cbn [step quiet fst].
+      unfold sim. cbn [wa wb vers flight whist pending with_vers]. rewrite S5. auto 10.
+    - (* Timeout *)
+      cbn [step]. destruct (find (fun p => Nat.eqb (fst p) i) (pending w)) as [[i' t0]|] eqn:Hf.
+      2: { exists []. apply sim_step_nil; cbn [step]; rewrite ?Hf; auto. }
+      destruct (find_some _ _ Hf) as [Hin Hi]. cbn [fst] in Hi. apply Nat.eqb_eq in Hi. subst i'.
+      destruct (Z.eq_dec t0 t) as [->|Ntok].
+      + assert (Hf' : find (fun p => Nat.eqb (fst p) i) (pending u) = Some (i, t)).
+        { rewrite <- S8. apply find_filter; [exact Hf|cbn; apply Z.eqb_refl]. }
+        exists [Timeout i]. apply sim_step_one; [(intros; reflexivity)|first [exact I|exact Hbo]|discriminate| |]; cbn [step]; rewrite Hf, Hf'; cbn [fst snd]; [|reflexivity].
+        unfold sim. cbn [wa wb vers flight whist pending with_a with_pending sending receiving with_sending].
+        split; [apply tget_tdel_congr; exact S1|]. repeat (split; [assumption|]).
+        rewrite <- S8. unfold pfilt. apply filter_comm.
+      + exists []. apply sim_step_nil; [(intros; reflexivity)| |cbn [step]; rewrite Hf; reflexivity]; cbn [step]; rewrite Hf; cbn [fst snd].
+        unfold sim. cbn [wa wb vers flight whist pending with_a with_pending sending receiving with_sending].
+        split; [rewrite tget_tdel_other by exact Ntok; exact S1|]. repeat (split; [assumption|]).
+        rewrite (pfilt_timeout_other t i t0 (pending w) Hpw Hin Ntok). exact S8.
+    - (* Expire *)
+      exists [Expire atB]. apply sim_step_one; [(intros; reflexivity)|first [exact I|exact Hbo]|discriminate| |destruct atB; reflexivity].
+      destruct atB; cbn [step quiet fst]; unfold sim; cbn [wa wb vers flight whist pending with_a with_b sending receiving with_sending with_receiving tget]; auto 10.
+  Qed.
+
+  Lemma exec_app : forall es1 es2 w, exec w (es1 ++ es2) = exec (exec w es1) es2.
+  Proof. induction es1 as [|e es1 IH]; intros es2 w; cbn [List.app exec]; [reflexivity|apply IH]. Qed.
+  Lemma exec_cnt : forall es w, wcnt w -> wcnt (exec w es).
+  Proof. induction es as [|e es IH]; intros w Hc; cbn [exec]; [exact Hc|]. apply IH, step_cnt, Hc. Qed.
+  Lemma exec_pend : forall es w, pend_ok (pending w) -> pend_ok (pending (exec w es)).
+  Proof.
+    induction es as [|e es IH]; intros w Hp; cbn [exec]; [exact Hp|]. apply IH.
+    pose proof (step_ret w e Hp) as Hs. destruct (step c w e) as [w' o]. apply Hs.
+  Qed.
+  Lemma exec_vers : forall es w k, ver (vers (exec w es)) k = ver (vers w) k + bumps es k.
+  Proof.
+    induction es as [|e es IH]; intros w k; cbn [exec]; [unfold bumps; cbn; lia|].
+    rewrite IH, (step_vers w e), bumps_cons.
+    destruct e; cbn [bump_count]; try lia. rewrite ver_bump, (Z.eqb_sym k0 k). destruct (k =? k0) eqn:E; [|lia].
+    apply Z.eqb_eq in E. subst. lia.
+  Qed.
+
+  Lemma run_sim N t : forall es w u,
+    sim t w u -> winv N w -> winv N u -> wcnt w -> wcnt u -> pend_ok (pending w) -> pend_ok (pending u) ->
+    0 <= t < FRESH -> Forall bump_ok es -> (forall k, ver (vers w) k + bumps es k <= N k) ->
+    exists es', (forall k, bumps es' k = bumps es k) /\ Forall bump_ok es' /\ solo_ok t es' /\
+                sim t (exec w es) (exec u es') /\
+                flat_map (tdeliv t) (run c w es) = flat_map (tdeliv t) (run c u es').
+  Proof.
+    induction es as [|e es IH]; intros w u Hsim Hw Hu Hcw Hcu Hpw Hpu Ht Hb HN.
+    { exists []. split; [reflexivity|]. split; [constructor|]. split; [intros i []|]. split; [exact Hsim|reflexivity]. }
+    inversion Hb as [|? ? Hbe Hbes]; subst.
+    destruct (step_sim N t w u e Hsim Hw Hu Hcw Hcu Hpw Ht Hbe) as [es1 (B1 & F1 & So1 & Sim1 & D1)].
+    assert (HNe : forall k, e = Bump k -> ver (vers w) k + 1 <= N k).
+    { intros k ->. specialize (HN k). rewrite bumps_cons in HN. cbn [bump_count] in HN. rewrite Z.eqb_refl in HN.
+      pose proof (bumps_nonneg es k). lia. }
+    pose proof (step_inv N w e Hw Hbe HNe) as Hst. pose proof (step_cnt w e Hcw) as Hsc. pose proof (step_ret w e Hpw) as Hsr.
+    pose proof (step_vers w e) as Hve.
+    cbn [run exec]. destruct (step c w e) as [w' o]. cbn [fst snd] in *. destruct Hst as [Hw' _]. destruct Hsr as [Hpw' _].
+    assert (HN' : forall k, ver (vers w') k + bumps es k <= N k).
+    { intros k. specialize (HN k). rewrite bumps_cons in HN. rewrite Hve.
+      destruct e; cbn [bump_count] in HN; try lia. rewrite ver_bump. rewrite (Z.eqb_sym k0 k) in HN. destruct (k =? k0) eqn:E; [|lia].
+      apply Z.eqb_eq in E. subst k0. lia. }
+    assert (Hvu : vers u = vers w) by (symmetry; apply Hsim).
+    destruct (exec_inv N es1 u Hu F1) as [Hu' _].
+    { intros k. rewrite Hvu, B1. specialize (HN k). rewrite bumps_cons in HN. pose proof (bumps_nonneg es k). lia. }
+    destruct (IH w' (exec u es1) Sim1 Hw' Hu' Hsc (exec_cnt es1 u Hcu) Hpw' (exec_pend es1 u Hpu) Ht Hbes HN')
+      as [es2 (B2 & F2 & So2 & Sim2 & D2)].
+    exists (es1 ++ es2).
+    split; [intros k; rewrite bumps_app, bumps_cons, B1, B2; reflexivity|].
+    split; [apply Forall_app; split; assumption|].
+    split; [intros i Hi; apply in_app_or in Hi; destruct Hi as [Hi|Hi]; [apply So1|apply So2]; exact Hi|].
+    split; [rewrite exec_app; exact Sim2|].
+    rewrite run_app, flat_map_app. cbn [flat_map]. rewrite D1, D2. reflexivity.
+  Qed.
+
+  (* C04 isolation over whole runs.  Take ANY script - any number of concurrent exchanges,
+     any faults.  For every application token t there is a script that starts only
+     exchanges with token t, in whose run every message ever on the wire carries token t,
+     and in which the two applications are handed exactly the same messages for t, at the
+     same sides, in the same order.  Hence what the applications see for one token is never
+     influenced by the exchanges, faults and blocks of the others. *)
+  Theorem exchange_isolated t es :
+    0 <= t < FRESH -> Forall bump_ok es ->
+    exists es', solo_ok t es' /\ Forall bump_ok es' /\ (forall k, bumps es' k = bumps es k) /\
+                (forall p, In p (whist (exec (init c) es')) -> mtok (snd p) = t) /\
+                flat_map (tdeliv t) (run c (init c) es) = flat_map (tdeliv t) (run c (init c) es').
+  Proof.
+    intros Ht Hb.
+    assert (Hinit : winv (bumps es) (init c)) by (apply winv_init; intros k; apply bumps_nonneg).
+    assert (Hc0 : wcnt (init c)) by (unfold wcnt, cnt_ok, init, new_ep; cbn; repeat split; lia).
+    assert (Hp0 : pend_ok (pending (init c))) by (intros i t0 []).
+    assert (Hs0 : sim t (init c) (init c)) by (unfold sim, init; cbn; auto 10).
+    destruct (run_sim (bumps es) t es (init c) (init c) Hs0 Hinit Hinit Hc0 Hc0 Hp0 Hp0 Ht Hb) as [es' (B & F & So & Sim & D)].
+    { intros k. cbn. lia. }
+    exists es'. split; [exact So|]. split; [exact F|]. split; [exact B|]. split; [|exact D].
+    intros p Hp. destruct Sim as (_ & _ & _ & _ & _ & _ & S7 & _). rewrite <- S7 in Hp.
+    unfold filt in Hp. apply filter_In in Hp. destruct Hp as [_ Hp]. apply Z.eqb_eq in Hp. exact Hp.
   Qed.
 End System.
